@@ -238,6 +238,9 @@ def reference(schema):
 
 # ------------------------------------------------------------------ generator
 KEYS = ["a", "b", "c", "k"]
+# property names whose JSON spelling is not the obvious one: combining marks, control characters (\b has a short escape, DEL has none),
+# quote and backslash, no-break space, Thai vowel signs
+ODD_KEYS = ["e\u0301", "\b", "\u007f", "q\"t", "b\\s", "\u00a0x", "\u0e2a\u0e31", "k"]
 
 
 def gen_leaf(rng):
@@ -261,7 +264,7 @@ def gen_schema(rng, depth=0, defs=None):
         return gen_leaf(rng)
     if r < 0.6:
         nprops = rng.randint(0, 3)
-        keys = rng.sample(KEYS, nprops)
+        keys = rng.sample(KEYS if rng.random() < 0.8 else ODD_KEYS, nprops)
         props = {k: gen_schema(rng, depth + 1, defs) for k in keys}
         req = [k for k in keys if rng.random() < 0.5]
         s = {"type": "object", "properties": props, "required": req}
@@ -370,6 +373,8 @@ def gen_case(rng):
 
 
 HAND = [
+    {"type": "object", "properties": {"e\u0301": {"type": "null"}, "\b": {"const": 1}, "\u0e2a\u0e31": {"type": "boolean"}}, "required": ["\b"], "additionalProperties": False},
+    {"const": {"q\"t": 1, "\u007f": [True]}},
     {"type": "object", "properties": {"a": False}, "additionalProperties": {"type": "null"}},
     {"type": "object", "properties": {"a": False, "b": False}, "additionalProperties": {"type": "boolean"}, "maxProperties": 2},
     {"type": "object", "properties": {"a": False, "b": {"const": 1}}, "required": ["b"], "additionalProperties": {"type": "null"}},
